@@ -26,11 +26,15 @@ from .core import (
     EngineError,
     OutsideSubset,
     Sym,
+    SymDict,
+    SymDictItems,
+    SymEnum,
     SymList,
     TBool,
     TData,
     TEnum,
     TInt,
+    TMap,
     TOpt,
     TReal,
     TSeq,
@@ -276,6 +280,8 @@ class Interp:
             return t.as_string()
         if isinstance(ty, TSeq) and ty.mutable:
             return SymList(t, ty)
+        if isinstance(ty, TMap):
+            return SymDict(t, ty)
         return Sym(t, ty)
 
     # ---------------------------------------------------------------------------------------
@@ -756,6 +762,9 @@ class Interp:
             raise OutsideSubset(f"assignment target {type(target).__name__}")
 
     def setitem(self, obj, idx, v):
+        if isinstance(obj, SymDict):
+            obj.t = z3.Store(obj.t, self.u.lift(idx, obj.ty.key), obj.ty.some(self.u.lift(v, obj.ty.val)))
+            return
         if is_sym(obj):
             raise OutsideSubset("item assignment on symbolic container")
         if isinstance(obj, dict):
@@ -850,7 +859,9 @@ class Interp:
 
     def x_For(self, node, frame):
         it = self.eval(node.iter, frame)
-        if isinstance(it, (Sym, SymList)):
+        if isinstance(it, SymDict):
+            it = SymDictItems(it, "keys")
+        if isinstance(it, (Sym, SymList, SymDictItems, SymEnum)):
             return self.symbolic_for(node, it, frame)
         items = self.iterate_concrete(it, what="for", lazy=True)
         for x in items:
@@ -1166,6 +1177,13 @@ class Interp:
         return out
 
     def e_Dict(self, node, frame):
+        mty = getattr(self, "dict_ty", None)
+        if mty is not None and all(k is not None for k in node.keys):
+            # dict displays of the declared map type are symbolic maps (also the empty one: it is updated later)
+            m = mty.empty()
+            for k, v in zip(node.keys, node.values):
+                m = z3.Store(m, self.u.lift(self.eval(k, frame), mty.key), mty.some(self.u.lift(self.eval(v, frame), mty.val)))
+            return SymDict(m, mty)
         d = {}
         for k, v in zip(node.keys, node.values):
             if k is None:
@@ -1244,6 +1262,37 @@ class Interp:
         sig = "|".join("{}" if k is None else k for k in skeleton) + ":" + "".join("s" if t.sort() == z3.StringSort() else "i" for t in terms)
         f = z3.Function("fstr!" + sig, *[t.sort() for t in terms], z3.StringSort())
         return Sym(f(*terms), TStr)
+
+    def _symdict_method(self, d, name):
+        ty = d.ty
+
+        def update(other=None):
+            if other is None:
+                return None
+            if isinstance(other, dict):
+                for k, v in other.items():
+                    self.setitem(d, k, v)
+                return None
+            if not isinstance(other, SymDict):
+                raise OutsideSubset("dict.update with a non-dict argument")
+            k = z3.Const(f"k!{ty.key.sort()}", ty.key.sort())
+            d.t = z3.Lambda([k], z3.If(ty.has(other.t, k), other.t[k], d.t[k]))
+            return None
+
+        def copy():
+            return SymDict(d.t, ty)
+
+        def get(key, default=None):
+            k = self.u.lift(key, ty.key)
+            if self.branch(self.wrap(z3.simplify(ty.has(d.t, k)), TBool), "dict.get present"):
+                return self.wrap(ty.get(d.t, k), ty.val)
+            return default
+
+        table = dict(update=update, copy=copy, get=get, items=lambda: SymDictItems(d, "items"), keys=lambda: SymDictItems(d, "keys"),
+                     values=lambda: SymDictItems(d, "values"))
+        if name not in table:
+            raise OutsideSubset(f"dict method {name} on a symbolic dict")
+        return table[name]
 
     def symstr_concat(self, parts):
         raise OutsideSubset("symbolic string concatenation")
@@ -1454,6 +1503,8 @@ class Interp:
         return type(v) in self.u.class_family or isinstance(v, (tuple, str, int, float))
 
     def contains(self, container, x):
+        if isinstance(container, SymDict):
+            return self.wrap(z3.simplify(container.ty.has(container.t, self.u.lift(x, container.ty.key))), TBool)
         if isinstance(container, (Sym, SymList)):
             h = getattr(self, "sym_contains", None)
             if h is None:
@@ -1567,6 +1618,8 @@ class Interp:
             if h is not None:
                 return h(obj, name)
             raise OutsideSubset(f"attribute {name} of {obj!r}")
+        if isinstance(obj, SymDict):
+            return self._symdict_method(obj, name)
         if isinstance(obj, SymList):
             h = getattr(self, "symlist_getattr", None)
             if h is not None:
@@ -1603,6 +1656,11 @@ class Interp:
         return self.getitem(obj, idx)
 
     def getitem(self, obj, idx):
+        if isinstance(obj, SymDict):
+            k = self.u.lift(idx, obj.ty.key)
+            if not self.branch(self.wrap(z3.simplify(obj.ty.has(obj.t, k)), TBool), "dict key present"):
+                raise PyRaise(KeyError(repr(idx)))
+            return self.wrap(obj.ty.get(obj.t, k), obj.ty.val)
         if isinstance(obj, (Sym, SymList)):
             if isinstance(obj.ty, TSeq):
                 return self.seq_index(obj, idx)
